@@ -1199,7 +1199,7 @@ func run(c *vlib.Ctx) {
 	if c.Thorough() {
 		all("F1-exhaustive", smallM, datasetRows(c, &idx, seq(8), 3), winF1, []int{0})
 	} else {
-		all("F1-exhaustive", smallM, datasetRows(c, &idx, seq(6), 3), winF1, []int{0})
+		all("F1-exhaustive", smallM, datasetRows(c, &idx, seq(5), 3), winF1, []int{0})
 		all("F1-exhaustive", smallM, datasetRows(c, &idx, seq(8), -1), winF1, []int{0})
 	}
 
@@ -1320,7 +1320,7 @@ func TestCheck(t *testing.T) {
 		ID: "C20", Level: "exploration",
 		Rule: "real path NewWindowAggregateResultSet->createCursor->multi-shard cursor->newWindowAggregateArrayCursor->*Window*ArrayCursor.Next over a buffer-reusing mock array cursor (one result set serves many series), " +
 			"compared with an independent reference (own window arithmetic, aggregate per window, stop time for count/sum/mean, first extreme point for min/max, point for first/last; only non-empty windows). " +
-			"F1: EVERY subset of times {0..7} x EVERY value assignment over 3 values (quick: every assignment for subsets of {0..5}, 3 fixed assignments for subsets of {0..7}) x EVERY split into input arrays (all compositions) x every in {1,2,3} x offset in {-1,0,1,2} (period=every) x " +
+			"F1: EVERY subset of times {0..7} x EVERY value assignment over 3 values (quick: every assignment for subsets of {0..4}, 3 fixed assignments for subsets of {0..7}) x EVERY split into input arrays (all compositions) x every in {1,2,3} x offset in {-1,0,1,2} (period=every) x " +
 			"{count,sum,min,max,first,last,mean} x {float,integer,unsigned} + {count,first,last} x {string,boolean}, MaxPointsPerBlock=3 (const->var overlay) so outputs span up to 3 blocks and every carry-over path is hit; " +
 			"F2: same over times {-3..0} (thorough {-3..2}) with the request given as Window{Every,Offset} and arrays spread over shards (one cursor / one shard per array / plus shards without data); " +
 			"F3: every subset of 8 (thorough 10) instants around month, year and leap-day boundaries x all compositions x every in {1,2,3,12} months x offsets {0,+1mo,-1mo,+1ns,+1mo+1ns}; " +
@@ -1336,7 +1336,7 @@ func TestCheck(t *testing.T) {
 			"reads.MaxPointsPerBlock is turned from a constant into a variable by the build overlay (shim.json); the code of the cursors is otherwise the repo's",
 			"month windows: reference uses Go's time.Date calendar arithmetic (UTC), offsets keep the day-of-month at 1",
 		},
-		QuickBudgetS: 45, ThoroughBudgetS: 800,
+		QuickBudgetS: 50, ThoroughBudgetS: 800,
 		Run: run,
 		Replay: func(c *vlib.Ctx, raw json.RawMessage) (bool, string) {
 			var cs Case
